@@ -304,6 +304,9 @@ def decopt_setattr_dyn(vm, obj, name, val):
 def decopt_post(vm, st, result):
     t = st['type'].t
     oa = sel(vm, '_OPTIONAL_ALIGNMENT', t)
+    if not isinstance(result, (SInt, int)) or isinstance(result, bool):
+        # the caller adds the result to its cursor: anything but a number escapes decode as a TypeError (C06)
+        return [('returns the number of bytes consumed, for every value of the presence flag', z3.BoolVal(False))]
     r = vm.as_int(result)
     stores = st['stores']
     present = st['FLAG'] != 0
